@@ -428,6 +428,23 @@ func c01Messages(w *core.W, j int) {
 			w.Violation("C01/msg-unpack-error"+cls, fmt.Sprintf("Msg.Unpack failed on a well-formed message: %v", err), wit)
 			continue
 		}
+		// a Msg value that is reused for the next packet (a server loop, a pooled Msg): unpacking into a
+		// Msg that held another message - every section filled, an OPT with extended-RCODE bits - yields
+		// what unpacking into a new one yields
+		{
+			used := new(dns.Msg)
+			if used.Unpack(append([]byte(nil), c01UsedWire...)) == nil {
+				var uerr error
+				if !w.Guard("Msg.Unpack(reused Msg)", wit, func() { uerr = used.Unpack(append([]byte(nil), wire...)) }) {
+					w.Count("reused_msg_decodes", 1)
+					if uerr != nil {
+						w.Violation("C01/msg-unpack-into-used-msg/error", fmt.Sprintf("a fresh Msg decodes the message, a Msg that held another message does not: %v", uerr), wit)
+					} else if d := bridge.Diff(m2, used); d != "" {
+						w.Violation("C01/msg-unpack-into-used-msg/differs", "decoded into a Msg that held another message vs into a fresh one: differs at "+d, wit)
+					}
+				}
+			}
+		}
 		// compare: header bits, counts, questions, records
 		exp, _ := buildMsgAny(m)
 		if d := bridge.Diff(exp.MsgHdr, m2.MsgHdr); d != "" {
@@ -474,6 +491,17 @@ func c01Messages(w *core.W, j int) {
 				w.Count("compressed_roundtrips", 1)
 				if e3 != nil || !bytes.Equal(p3, wire) {
 					w.Violation("C01/msg-compressed-roundtrip", fmt.Sprintf("Pack with compression -> Unpack -> Pack: err=%v: %s", e3, diffWin(p3, wire)), wit)
+				} else if exp, ptrs, derr := model.Decompress(pc); derr != nil || !bytes.Equal(exp, wire) {
+					// the octets themselves, read by the strict model decoder: the RFC layouts with names
+					// replaced by pointers only where RFC 3597 s.4 lets a sender compress
+					w.Violation("C01/msg-compressed-layout", fmt.Sprintf("the compressed packing is not the RFC layout with pointers expanded: err=%v %s", derr, diffWin(exp, wire)), wit)
+				} else {
+					for _, p := range ptrs {
+						if p.Where == "rdata" && !p.Compressible {
+							w.Violation("C01/msg-compressed-layout/pointer-in-rdata/"+typeName(p.RRType), fmt.Sprintf("compression pointer at %d inside the RDATA of %s, whose layout holds an uncompressed name there", p.At, typeName(p.RRType)), wit)
+						}
+					}
+					w.Count("compressed_layout_checks", 1)
 				}
 			}
 		}
@@ -482,6 +510,24 @@ func c01Messages(w *core.W, j int) {
 		}
 	}
 }
+
+// c01UsedWire is the message a reused Msg held before: all four sections populated, RCODE 16 + 7 (BADCOOKIE,
+// extended bits in the OPT), every header flag set.
+var c01UsedWire = func() []byte {
+	m := new(dns.Msg)
+	m.SetQuestion("earlier.example.", dns.TypeMX)
+	m.Response, m.Authoritative, m.RecursionAvailable, m.AuthenticatedData, m.CheckingDisabled, m.Zero = true, true, true, true, true, true
+	m.Answer = []dns.RR{&dns.MX{Hdr: dns.RR_Header{Name: "earlier.example.", Rrtype: dns.TypeMX, Class: 1, Ttl: 60}, Preference: 1, Mx: "mail.earlier.example."}}
+	m.Ns = []dns.RR{&dns.NS{Hdr: dns.RR_Header{Name: "earlier.example.", Rrtype: dns.TypeNS, Class: 1, Ttl: 60}, Ns: "ns.earlier.example."}}
+	m.Extra = []dns.RR{&dns.A{Hdr: dns.RR_Header{Name: "ns.earlier.example.", Rrtype: dns.TypeA, Class: 1, Ttl: 60}, A: []byte{192, 0, 2, 1}}}
+	m.SetEdns0(4096, true)
+	m.Rcode = dns.RcodeBadCookie
+	b, err := m.Pack()
+	if err != nil {
+		panic(err)
+	}
+	return b
+}()
 
 // c01MsgClass: a message is classed by the known-finding input classes of its records, so a
 // known record-level defect does not hide an unrelated message-level one.
